@@ -2753,7 +2753,7 @@ class Cond(Generic[X, R], GFI[X, R]):
         new_tr, w, discard = self.callee.update(tr.trs[0], x, *rest_args, **kwargs)
         new_tr_, w_, discard_ = self.callee_.update(tr.trs[1], x, *rest_args, **kwargs)
         # Merge discarded values
-        merged_discard, _ = self.callee.merge(discard, discard_)
+        merged_discard, _ = self.callee.merge(discard, discard_, tr.check)
         return (
             CondTr(self, check, [new_tr, new_tr_]),
             jnp.where(check, w, w_),
@@ -2777,7 +2777,7 @@ class Cond(Generic[X, R], GFI[X, R]):
         elif discard_ is None:
             merged_discard = discard
         else:
-            merged_discard, _ = self.callee.merge(discard, discard_)
+            merged_discard, _ = self.callee.merge(discard, discard_, tr.check)
         return (
             CondTr(self, check, [new_tr, new_tr_]),
             jnp.where(check, w, w_),
